@@ -292,51 +292,57 @@ Section WithOracle.
       end
     else SOk (ch, digsep, invalid, s).
 
-  (** Scanner.scanNumber(ch, seenDot); [src0]/[tokpos] identify the token start (for TokenText
-      in the '_' check). Returns (tok, ch, state). Prefix: 0 decimal, 48 '0', 120 'x', 111 'o', 98 'b'. *)
+  (** Scanner.scanNumber(ch, seenDot), in three parts. Prefix: 0 decimal, 48 '0', 120 'x', 111 'o', 98 'b'.
+      Integer part (only when no dot has been seen): returns (base, prefix, digsep, invalid, ch, seenDot, state) *)
+  Definition scan_intpart (ch0 : Z) (s0 : sstate) : sres (Z * Z * Z * Z * Z * bool * sstate) :=
+    slet (base, prefix, digsep, ch, s) <-
+      (if ch0 =? 48 then
+         slet (c1, s1) <- sc_next s0;
+         if lower c1 =? 120 then slet (c2, s2) <- sc_next s1; SOk (16, 120, 0, c2, s2)
+         else if lower c1 =? 111 then slet (c2, s2) <- sc_next s1; SOk (8, 111, 0, c2, s2)
+         else if lower c1 =? 98 then slet (c2, s2) <- sc_next s1; SOk (2, 98, 0, c2, s2)
+         else SOk (8, 48, 1, c1, s1)
+       else SOk (10, 0, 0, ch0, s0));
+    slet (ch, ds, invalid, s) <- digits F ch base 0 0 s;
+    let digsep := Z.lor digsep ds in
+    if ch =? 46 then
+      slet (c, s') <- sc_next s; SOk (base, prefix, digsep, invalid, c, true, s')
+    else SOk (base, prefix, digsep, invalid, ch, false, s).
+
+  (** fractional part: returns (tok, digsep, invalid, ch, state) *)
+  Definition scan_fraction (base prefix digsep invalid ch : Z) (seen_dot : bool) (s : sstate)
+    : sres (Z * Z * Z * Z * sstate) :=
+    if seen_dot then
+      if (prefix =? 111) || (prefix =? 98) then SErr (sc_pos s) EScanNumber   (* invalid radix point *)
+      else
+        slet (ch, ds, invalid, s) <- digits F ch base invalid 0 s;
+        SOk (TFloat, Z.lor digsep ds, invalid, ch, s)
+    else SOk (TInt, digsep, invalid, ch, s).
+
+  (** exponent: returns (tok, digsep, ch, state) *)
+  Definition scan_exponent (prefix tok digsep ch : Z) (s : sstate) : sres (Z * Z * Z * sstate) :=
+    let e := lower ch in
+    if (e =? 101) || (e =? 112) then
+      if (e =? 101) && negb (prefix =? 0) && negb (prefix =? 48) then SErr (sc_pos s) EScanNumber
+      else if (e =? 112) && negb (prefix =? 120) then SErr (sc_pos s) EScanNumber
+      else
+        slet (c, s1) <- sc_next s;
+        slet (c, s1) <- (if (c =? 43) || (c =? 45) then sc_next s1 else SOk (c, s1));
+        slet (c, ds, _, s1) <- digits F c 10 0 0 s1;
+        if Z.land ds 1 =? 0 then SErr (sc_pos s1) EScanNumber                   (* exponent has no digits *)
+        else SOk (TFloat, Z.lor digsep ds, c, s1)
+    else if (prefix =? 120) && (tok =? TFloat) then SErr (sc_pos s) EScanNumber (* needs 'p' exponent *)
+    else SOk (tok, digsep, ch, s).
+
+  (** [src0]/[tokpos] identify the token start (for TokenText in the '_' check). Returns (tok, ch, state). *)
   Definition scan_number (src0 : bytes) (tokpos : Z) (ch0 : Z) (seen_dot : bool) (s0 : sstate)
     : sres (Z * Z * sstate) :=
-    (* integer part *)
     slet (base, prefix, digsep, invalid, ch, seen_dot, s) <-
-      (if seen_dot then SOk (10, 0, 0, 0, ch0, true, s0)
-       else
-         slet (base, prefix, digsep, ch, s) <-
-           (if ch0 =? 48 then
-              slet (c1, s1) <- sc_next s0;
-              if lower c1 =? 120 then slet (c2, s2) <- sc_next s1; SOk (16, 120, 0, c2, s2)
-              else if lower c1 =? 111 then slet (c2, s2) <- sc_next s1; SOk (8, 111, 0, c2, s2)
-              else if lower c1 =? 98 then slet (c2, s2) <- sc_next s1; SOk (2, 98, 0, c2, s2)
-              else SOk (8, 48, 1, c1, s1)
-            else SOk (10, 0, 0, ch0, s0));
-         slet (ch, ds, invalid, s) <- digits F ch base 0 0 s;
-         let digsep := Z.lor digsep ds in
-         if ch =? 46 then
-           slet (c, s') <- sc_next s; SOk (base, prefix, digsep, invalid, c, true, s')
-         else SOk (base, prefix, digsep, invalid, ch, false, s));
-    (* fractional part *)
-    slet (tok, digsep, invalid, ch, s) <-
-      (if seen_dot then
-         if (prefix =? 111) || (prefix =? 98) then SErr (sc_pos s) EScanNumber   (* invalid radix point *)
-         else
-           slet (ch, ds, invalid, s) <- digits F ch base invalid 0 s;
-           SOk (TFloat, Z.lor digsep ds, invalid, ch, s)
-       else SOk (TInt, digsep, invalid, ch, s));
+      (if seen_dot then SOk (10, 0, 0, 0, ch0, true, s0) else scan_intpart ch0 s0);
+    slet (tok, digsep, invalid, ch, s) <- scan_fraction base prefix digsep invalid ch seen_dot s;
     if Z.land digsep 1 =? 0 then SErr (sc_pos s) EScanNumber                      (* has no digits *)
     else
-    (* exponent *)
-    let e := lower ch in
-    slet (tok, digsep, ch, s) <-
-      (if (e =? 101) || (e =? 112) then
-         if (e =? 101) && negb (prefix =? 0) && negb (prefix =? 48) then SErr (sc_pos s) EScanNumber
-         else if (e =? 112) && negb (prefix =? 120) then SErr (sc_pos s) EScanNumber
-         else
-           slet (c, s1) <- sc_next s;
-           slet (c, s1) <- (if (c =? 43) || (c =? 45) then sc_next s1 else SOk (c, s1));
-           slet (c, ds, _, s1) <- digits F c 10 0 0 s1;
-           if Z.land ds 1 =? 0 then SErr (sc_pos s1) EScanNumber                   (* exponent has no digits *)
-           else SOk (TFloat, Z.lor digsep ds, c, s1)
-       else if (prefix =? 120) && (tok =? TFloat) then SErr (sc_pos s) EScanNumber (* needs 'p' exponent *)
-       else SOk (tok, digsep, ch, s));
+    slet (tok, digsep, ch, s) <- scan_exponent prefix tok digsep ch s;
     if (tok =? TInt) && negb (invalid =? 0) then SErr (sc_pos s) EScanNumber       (* invalid digit *)
     else if negb (Z.land digsep 2 =? 0)
             && (0 <=? invalid_sep (firstn (Z.to_nat (s_pos s - blen (s_last s) - tokpos)) src0))
